@@ -629,10 +629,6 @@ def to_matched_score(
         score-performance note array
     """
 
-    # remove repetitions from aligment note ids
-    for a in alignment:
-        if a["label"] == "match":
-            a["score_id"] = str(a["score_id"])
 
     feature_functions = None
     if include_score_markings and not isinstance(score, np.ndarray):
@@ -657,9 +653,9 @@ def to_matched_score(
 
     # pair matched score and performance notes
     note_pairs = [
-        (part_by_id[a["score_id"]], ppart_by_id[a["performance_id"]])
+        (part_by_id[str(a["score_id"])], ppart_by_id[a["performance_id"]])
         for a in alignment
-        if (a["label"] == "match" and a["score_id"] in part_by_id)
+        if (a["label"] == "match" and str(a["score_id"]) in part_by_id)
     ]
     ms = []
     # sort according to onset (primary) and pitch (secondary)
